@@ -127,6 +127,7 @@ class Gen:
                     cfg["after"]["300000"] = self.transition(path, targets, "after2")
             if kind == "atomic" and rng.random() < self.p("always", 0.12):
                 t = self.transition(path, targets, "always")
+                t.pop("cond", None)
                 t["guard"] = rng.choice(["gF", "gOdd", "gF"])
                 cfg["always"] = [t]
         if rng.random() < self.p("root_on", 0.3):
@@ -184,21 +185,29 @@ def make_logic(config, trace: Trace, faults=None):
 
     def collect(c):
         for key in ("entry", "exit"):
-            for a in c.get(key, []) or []:
-                names.add(a if isinstance(a, str) else a.get("type"))
+            v = c.get(key, []) or []
+            for a in (v if isinstance(v, list) else [v]):
+                names.add(a if isinstance(a, str) else (a.get("type") if isinstance(a, dict) else None))
         def tr(t):
             if isinstance(t, dict):
-                for a in t.get("actions", []) or []:
-                    names.add(a if isinstance(a, str) else a.get("type"))
+                v = t.get("actions", []) or []
+                for a in (v if isinstance(v, list) else [v]):
+                    names.add(a if isinstance(a, str) else (a.get("type") if isinstance(a, dict) else None))
             elif isinstance(t, list):
                 for x in t:
                     tr(x)
-        for v in (c.get("on") or {}).values():
+        on = c.get("on") or {}
+        for v in (on.values() if isinstance(on, dict) else []):
             tr(v)
         tr(c.get("always"))
         tr(c.get("onDone"))
-        for sub in (c.get("states") or {}).values():
-            collect(sub)
+        af = c.get("after") or {}
+        for v in (af.values() if isinstance(af, dict) else []):
+            tr(v)
+        st = c.get("states") or {}
+        for sub in (st.values() if isinstance(st, dict) else []):
+            if isinstance(sub, dict):
+                collect(sub)
     collect(config)
     actions = {}
     for n in names:
@@ -243,9 +252,15 @@ def materialize(config):
         BOOMS.append(1)
         raise RuntimeError("assignment boom")
 
+    def fix_one(a):
+        if a == "inc":
+            return {"type": "xstate.assign", "params": {"assignment": inc}}
+        if a == "incboom":
+            return {"type": "xstate.assign", "params": {"assignment": boom}}
+        return a
+
     def fix_actions(lst):
-        return [({"type": "xstate.assign", "params": {"assignment": inc}} if a == "inc" else
-                 ({"type": "xstate.assign", "params": {"assignment": boom}} if a == "incboom" else a)) for a in lst]
+        return [fix_one(a) for a in lst] if isinstance(lst, list) else fix_one(lst)
 
     def tr(t):
         if isinstance(t, dict):
@@ -262,13 +277,13 @@ def materialize(config):
         for k in ("entry", "exit"):
             if k in c:
                 c[k] = fix_actions(c[k])
-        if "on" in c:
+        if isinstance(c.get("on"), dict):
             c["on"] = {e: tr(v) for e, v in c["on"].items()}
         for k in ("always", "onDone"):
             if k in c:
                 c[k] = tr(c[k])
-        if "states" in c:
-            c["states"] = {k: walk(v) for k, v in c["states"].items()}
+        if isinstance(c.get("states"), dict):
+            c["states"] = {k: (walk(v) if isinstance(v, dict) else v) for k, v in c["states"].items()}
         return c
     return walk(copy.deepcopy(config))
 
@@ -281,7 +296,10 @@ def snapshot_of(interp):
 def run_sync(config, events, faults=None, observer=None):
     from xstate_statemachine import SyncInterpreter, create_machine
     tr = Trace()
-    m = create_machine(materialize(config), logic=make_logic(config, tr, faults))
+    try:
+        m = create_machine(materialize(config), logic=make_logic(config, tr, faults))
+    except Exception as e:
+        return {"steps": [], "actions": [], "errors": [("create", type(e).__name__, str(e)[:200])], "interp": None, "start_failed": True}
     it = SyncInterpreter(m)
     if observer:
         observer(it)
